@@ -418,3 +418,4 @@ MANIFEST = {
 }
 MANIFEST['note'] += (' Also decided here (necessary conditions shared between properties or added after the independent '
                      'change rounds, DESIGN.md 8.7): timer coverage of request-outstanding states (from C09), parse errors leave process_message, from_exception cannot raise. Rounds 7-8: lookup helpers may report a miss by StopIteration or None; the successor is never reset while the IKE_SA has one; tracked before installed.')
+MANIFEST['note'] += (' Round 10: a first-match finder tested against None in the lookup by CHILD_SA SPI is read as its search condition.')
